@@ -65,7 +65,7 @@ def configs(tier):
         seqs += ["GGG", "GPG", "PGX", "GEC", "TPG", "CGX"]
     else:
         for a in "GPE":
-            for b in "GPE":
+            for b in "GP":
                 for c in "GCTX":
                     seqs.append(a + b + c)
     for kinds in seqs:
@@ -81,6 +81,10 @@ def configs(tier):
                     if eager == 8 and seg == "whole" and n == 1:
                         continue
                     if tier == "quick" and eager == 8 and seg != "mid-header":
+                        continue
+                    if tier != "quick" and n >= 2 and eager == 8 and seg in ("whole", "near-end"):
+                        continue
+                    if tier != "quick" and n == 3 and eager is None and seg in ("per-request", "near-end"):
                         continue
                     out.append((kinds, now, seg, eager))
     return out
